@@ -106,6 +106,7 @@ func (c *Conn) Gone() bool { c.mu.Lock(); defer c.mu.Unlock(); return c.gone }
 func (c *Conn) Closed() bool { c.mu.Lock(); defer c.mu.Unlock(); return c.closed }
 
 func (c *Conn) Close(code StatusCode, reason string) error {
+	vsched.Yield("ws.close") // the close handshake is network I/O, and it cancels the read context others may poll
 	c.mu.Lock()
 	if c.closed {
 		c.mu.Unlock()
